@@ -131,6 +131,7 @@ def gen_classified(rng, srv):
     path = b"\xff\xfe" if badtext else None
     body = I(rid)
     uses_cb = True
+    close_raises = False
     if t == 3:
         body += s_(path or b"/a") + I(1) + at
     elif t == 4:
@@ -139,7 +140,9 @@ def gen_classified(rng, srv):
             handle = srv._handle(bytes([3]) + I(5) + s_(b"/a") + I(1) + I(0)) if hkind == "f" else \
                 srv._handle(bytes([11]) + I(6) + s_(b"/d"))
         body += s_(handle)
+        # SFTPHandle.close() is called for a file handle: it may raise (its return value is ignored)
         uses_cb = False
+        close_raises = hkind == "f" and outcome == "raise"
     elif t == 5:
         off = rng.choice([0, 10, 99, 100, 5000])
         a["empty"] = 1 if off >= 100 else 0
@@ -188,6 +191,9 @@ def gen_classified(rng, srv):
     elif t == 16:
         body += s_(path or b"/d/../a")
         uses_cb = False
+        if outcome == "raise" and not badtext:
+            close_raises = True  # same handling: the only callback (canonicalize) raises
+            force = {"raise": True, "canonicalize": True}
     elif t == 200:
         ext = rng.choice(["c", "c", "p", "o"])
         a["ext"] = ext
@@ -231,6 +237,9 @@ def gen_classified(rng, srv):
         uses_cb = False
     if badtext and (t in (3, 13, 15, 18, 14, 11, 17, 7, 9, 19, 20, 16) or (t == 200 and a["ext"] == "p")):
         a["raises"], a["ok"], force = 1, 0, None  # the decoder raises before any callback runs
+    elif close_raises:
+        a["raises"], a["ok"] = 1, 0
+        force = force if (force and force.get("canonicalize")) else {"raise": True}
     elif not uses_cb:
         # no callback is involved: forced outcomes do not apply
         a["raises"], a["ok"] = 0, 1
@@ -645,7 +654,9 @@ META = {
               "callback outcome (result / error code / exception), any extended tag, any exit of check-file — with "
               "exactly one packet carrying the same id and a type valid for the request (one_response_same_id_valid_type); "
               "failures are STATUS; every control-flow path through every branch of the source of _process and through its "
-              "helpers calls a responder exactly once (source_paths_send_exactly_once, AST table); every packet type that a responder call in any branch of the *source* of _process "
+              "helpers calls a responder exactly once, and every exception path (sends so far + finally blocks + the catch-all "
+              "in start_subsystem) too (source_paths_send_exactly_once, source_exception_paths_send_exactly_once, AST "
+              "tables); every packet type that a responder call in any branch of the *source* of _process "
               "and its helpers can emit is valid for that branch (table regenerated from the AST each run: "
               "source_branches_emit_valid_types), and the model stays within that table. Client: no call ever waits "
               "with nothing outstanding, for every program mixing pipelined writes, plain writes, other requests and "
